@@ -194,7 +194,10 @@ pub fn gen_world(rng: &mut Rng, prop: &str) -> WorldCfg {
     };
     let liq_fee = ratio_choice(rng, d, &[(0, 1), (125, 4), (500, 4), (1000, 2)]);
     let want_fluct = matches!(prop, "C15") || rng.chance(if matches!(prop, "C04" | "C11" | "C12" | "C02") { 5 } else { 3 }, 10);
-    let partial = if prop == "C15" || want_fluct {
+    let partial = if prop == "C17" {
+        // includes ratios that are not one over a whole number
+        ratio_choice(rng, d, &[(2500, 2), (5000, 2), (4000, 2), (7500, 2), (3000, 1), (6000, 1), (0, 1), (10000, 1)])
+    } else if prop == "C15" || want_fluct {
         ratio_choice(rng, d, &[(2500, 4), (5000, 2), (9900, 1), (10000, 1), (0, 1)])
     } else {
         ratio_choice(rng, d, &[(0, 4), (2500, 3), (5000, 1), (9900, 1), (10000, 1)])
@@ -626,6 +629,25 @@ impl Gen {
                         _ => (qv / 2).max(1),
                     };
                 }
+                // a partial liquidation trades the fraction `partial` of the position under the caller's limit scaled by the
+                // same fraction: aim the whole-position limit around (quote of the partial trade) / fraction
+                let pr = r.obs.eng.as_ref().map(|e| e.partial).unwrap_or(0);
+                if pr > 0 && pr < r.w.d && rng.chance(1, 2) {
+                    let part = mul_div(p.size.unsigned_abs(), pr, r.w.d).unwrap_or(0);
+                    if let Some(qp) = curve_output(p.dir, part, vo.q, vo.b, vo.decimals.max(1)).filter(|_| part > 0) {
+                        if let Some(whole) = mul_div(qp, r.w.d, pr) {
+                            limit = match rng.below(7) {
+                                0 => whole,
+                                1 => whole + 2,
+                                2 => whole.saturating_sub(2).max(1),
+                                3 => mul_div(whole, 8, 10).unwrap_or(whole).max(1),
+                                4 => mul_div(whole, 9, 10).unwrap_or(whole).max(1),
+                                5 => mul_div(whole, 11, 10).unwrap_or(whole),
+                                _ => mul_div(whole, 125, 100).unwrap_or(whole),
+                            };
+                        }
+                    }
+                }
             }
         }
         Step::new(&actor, Op::Liquidate { vamm: v, trader, limit })
@@ -872,6 +894,16 @@ impl Gen {
             3 => serde_json::json!({"deposit_margin": {"vamm": head, "amount": "1"}}),
             _ => serde_json::json!({"open_position": {"vamm": head, "side": "sell", "margin_amount": "1000", "leverage": r.w.d.to_string(), "base_asset_limit": "0"}}),
         };
+        if rng.chance(1, 3) {
+            // a funded deposit from the crafted account (it needs collateral and an allowance to get as far as the write)
+            let amt = rng.range128(1, 5_000);
+            let msg = serde_json::json!({"deposit_margin": {"vamm": head, "amount": amt.to_string()}});
+            let mut dep = Step::new(&actor, Op::RawEngine { json: msg.to_string() });
+            dep.funds = amt;
+            self.plan.push(dep);
+            self.plan.push(Step::new(&actor, Op::SetAllowance { amount: amt.saturating_mul(4) }));
+            return Some(Step::new(crate::world::TREASURY, Op::Transfer { to: actor, amount: amt.saturating_mul(4) }));
+        }
         Some(Step::new(&actor, Op::RawEngine { json: msg.to_string() }))
     }
 
